@@ -292,6 +292,9 @@ type PredEval struct {
 	// Default: the first parameter of the function.
 	Subject func(p *packages.Package, fd *ast.FuncDecl, e ast.Expr) bool
 	cache   map[*types.Func]any
+	// locals: boolean locals bound once to a condition over the subject
+	// (ok of `_, ok := table[subject]`, or `hit := cond`)
+	locals map[types.Object]any
 }
 
 func NewPredEval(w *World, d dom) *PredEval {
@@ -350,9 +353,15 @@ func (pe *PredEval) block(p *packages.Package, fd *ast.FuncDecl, stmts []ast.Stm
 			t = D.union(t, D.inter(reach, c))
 			f = D.union(f, D.inter(reach, D.compl(c)))
 			return t, f, D.empty()
+		case *ast.AssignStmt:
+			pe.bind(p, fd, s)
 		case *ast.IfStmt:
 			if s.Init != nil {
-				panic(undecided{"if-init in " + fd.Name.Name})
+				as, ok := s.Init.(*ast.AssignStmt)
+				if !ok {
+					panic(undecided{"if-init in " + fd.Name.Name})
+				}
+				pe.bind(p, fd, as)
 			}
 			c := pe.cond(p, fd, s.Cond)
 			t1, f1, r1 := pe.block(p, fd, s.Body.List, D.inter(reach, c))
@@ -444,6 +453,19 @@ func (pe *PredEval) cond(p *packages.Package, fd *ast.FuncDecl, e ast.Expr) any 
 		return D.empty()
 	}
 	switch e := e.(type) {
+	case *ast.Ident:
+		if o := p.TypesInfo.Uses[e]; o != nil {
+			if c, ok := pe.locals[o]; ok {
+				return c
+			}
+		}
+	case *ast.IndexExpr:
+		// table[subject] of a read-only map[K]bool whose entries are all true
+		if pe.isSubject(p, fd, e.Index) {
+			if keys, ok := pe.tableKeys(p, e.X, true); ok {
+				return keys
+			}
+		}
 	case *ast.UnaryExpr:
 		if e.Op == token.NOT {
 			return D.compl(pe.cond(p, fd, e.X))
@@ -489,8 +511,192 @@ func (pe *PredEval) cond(p *packages.Package, fd *ast.FuncDecl, e ast.Expr) any 
 				return s
 			}
 		}
+		// slices.Contains(table, subject) over a read-only list
+		if callee, ok := typeutil.Callee(p.TypesInfo, e).(*types.Func); ok && callee.FullName() == "slices.Contains" && len(e.Args) == 2 && pe.isSubject(p, fd, e.Args[1]) {
+			if keys, ok := pe.tableKeys(p, e.Args[0], false); ok {
+				return keys
+			}
+		}
 	}
 	panic(undecided{"condition not in the predicate subset in " + fd.Name.Name + ": " + types.ExprString(e)})
+}
+
+// bind records `_, ok := table[subject]` and `b := cond` (defining
+// assignments of a local that is not assigned again).
+func (pe *PredEval) bind(p *packages.Package, fd *ast.FuncDecl, as *ast.AssignStmt) {
+	if as.Tok != token.DEFINE || len(as.Rhs) != 1 {
+		panic(undecided{"assignment in predicate " + fd.Name.Name})
+	}
+	if pe.locals == nil {
+		pe.locals = map[types.Object]any{}
+	}
+	var target *ast.Ident
+	var val any
+	switch {
+	case len(as.Lhs) == 2:
+		ix, ok := ast.Unparen(as.Rhs[0]).(*ast.IndexExpr)
+		v0, _ := as.Lhs[0].(*ast.Ident)
+		if !ok || v0 == nil || v0.Name != "_" || !pe.isSubject(p, fd, ix.Index) {
+			panic(undecided{"assignment in predicate " + fd.Name.Name})
+		}
+		keys, ok := pe.tableKeys(p, ix.X, false)
+		if !ok {
+			panic(undecided{"lookup in a table that is not a read-only literal in " + fd.Name.Name})
+		}
+		target, _ = as.Lhs[1].(*ast.Ident)
+		val = keys
+	case len(as.Lhs) == 1:
+		target, _ = as.Lhs[0].(*ast.Ident)
+		val = pe.cond(p, fd, as.Rhs[0])
+	}
+	if target == nil || p.TypesInfo.Defs[target] == nil {
+		panic(undecided{"assignment in predicate " + fd.Name.Name})
+	}
+	obj := p.TypesInfo.Defs[target]
+	// assigned once
+	ast.Inspect(fd.Body, func(n ast.Node) bool {
+		switch x := n.(type) {
+		case *ast.AssignStmt:
+			for _, l := range x.Lhs {
+				if id, ok := l.(*ast.Ident); ok && p.TypesInfo.Uses[id] == obj {
+					panic(undecided{"local reassigned in predicate " + fd.Name.Name})
+				}
+			}
+		case *ast.UnaryExpr:
+			if id, ok := x.X.(*ast.Ident); ok && x.Op == token.AND && p.TypesInfo.Uses[id] == obj {
+				panic(undecided{"local's address taken in predicate " + fd.Name.Name})
+			}
+		}
+		return true
+	})
+	pe.locals[obj] = val
+}
+
+// tableKeys: e names a package-level table (map or list literal with constant
+// keys/elements) that the module only ever reads; the set of its keys in the
+// domain.  wantTrue: a map[K]bool all of whose values are the constant true.
+func (pe *PredEval) tableKeys(p *packages.Package, e ast.Expr, wantTrue bool) (any, bool) {
+	id, ok := ast.Unparen(e).(*ast.Ident)
+	if !ok {
+		return nil, false
+	}
+	v, ok := p.TypesInfo.Uses[id].(*types.Var)
+	if !ok || v.Parent() != v.Pkg().Scope() || !pe.W.InRepoObj(v) {
+		return nil, false
+	}
+	init, ip := pe.W.VarInit(v)
+	cl, ok := ast.Unparen(init).(*ast.CompositeLit)
+	if !ok {
+		return nil, false
+	}
+	_, isMap := v.Type().Underlying().(*types.Map)
+	keys := pe.D.empty()
+	for _, el := range cl.Elts {
+		k := el
+		if kv, isKV := el.(*ast.KeyValueExpr); isKV {
+			if !isMap {
+				return nil, false
+			}
+			k = kv.Key
+			if wantTrue {
+				if c := ConstOf(ip, kv.Value); c == nil || c.Kind() != constant.Bool || !constant.BoolVal(c) {
+					return nil, false
+				}
+			}
+		} else if isMap {
+			return nil, false
+		}
+		c := ConstOf(ip, k)
+		if c == nil {
+			return nil, false
+		}
+		x, ok := pe.D.fromCmp(token.EQL, c, true)
+		if !ok {
+			return nil, false
+		}
+		keys = pe.D.union(keys, x)
+	}
+	if wantTrue && !isMap {
+		return nil, false
+	}
+	if !pe.W.readOnlyTable(v) {
+		return nil, false
+	}
+	return keys, true
+}
+
+// readOnlyTable: every mention of the package-level variable v in the module
+// reads it: v[k] outside an assignment target, range v, len(v), or an
+// argument of slices.Contains / slices.Index.
+func (w *World) readOnlyTable(v *types.Var) bool {
+	ok := true
+	for _, p := range w.All {
+		if p.Types != v.Pkg() && !v.Exported() {
+			continue
+		}
+		for _, file := range p.Syntax {
+			var stack []ast.Node
+			ast.Inspect(file, func(n ast.Node) bool {
+				if n == nil {
+					stack = stack[:len(stack)-1]
+					return true
+				}
+				stack = append(stack, n)
+				id, isId := n.(*ast.Ident)
+				if !isId || p.TypesInfo.Uses[id] != types.Object(v) {
+					return true
+				}
+				if len(stack) < 2 {
+					ok = false
+					return true
+				}
+				switch par := stack[len(stack)-2].(type) {
+				case *ast.IndexExpr:
+					if par.X != ast.Expr(id) {
+						return true // used as an index of something else: a read of... not of v
+					}
+					// v[k]: must not be an assignment target, inc/dec operand or delete argument
+					if len(stack) >= 3 {
+						switch gp := stack[len(stack)-3].(type) {
+						case *ast.AssignStmt:
+							for _, l := range gp.Lhs {
+								if l == ast.Expr(par) {
+									ok = false
+								}
+							}
+						case *ast.IncDecStmt:
+							ok = false
+						case *ast.UnaryExpr:
+							if gp.Op == token.AND {
+								ok = false
+							}
+						}
+					}
+				case *ast.RangeStmt:
+					if par.X != ast.Expr(id) {
+						ok = false
+					}
+				case *ast.CallExpr:
+					switch f := typeutil.Callee(p.TypesInfo, par).(type) {
+					case *types.Builtin:
+						if f.Name() != "len" {
+							ok = false
+						}
+					case *types.Func:
+						if fn := f.FullName(); fn != "slices.Contains" && fn != "slices.Index" {
+							ok = false
+						}
+					default:
+						ok = false
+					}
+				default:
+					ok = false
+				}
+				return true
+			})
+		}
+	}
+	return ok
 }
 
 func (w *World) InRepoObj(o types.Object) bool {
